@@ -10,6 +10,16 @@ open Line Forge
 
 def tableFor (weak : Bool) : List Row := if weak then Gen.Suites.weak else Gen.Suites.base
 
+/-- the monitors' notion of "a suite utls supports" (property text: the legacy ChaCha20 code points
+and, after `EnableWeakCiphers`, the weak CBC suites — `EnableWeakCiphers` only adds): the table in
+force, and after `EnableWeakCiphers` also everything the start-up table holds. With the code as it
+is now the second clause adds nothing (`C27.weak_extends_base`); if `EnableWeakCiphers` drops a
+suite again (D21) the monitors still demand a working pair for it. -/
+def supportedRow (weak : Bool) (id : Nat) : Option Row :=
+  match lookup (tableFor weak) id with
+  | some r => some r
+  | none => if weak then lookup Gen.Suites.base id else none
+
 def outcomeStr : Outcome → String
   | .nil => "nil"
   | .panic _ => "panic"
@@ -85,14 +95,16 @@ def forge (c : Case) : Verdict :=
     let implC := c.output.getD "c" "?"
     let implS := c.output.getD "s" "?"
     let implRes := c.output.getD "res" "?"
-    let valid := row.isSome && validVersion r ver
-    let cls := if row.isNone then "unsupported" else if valid then "valid" else if versionKnown ver then "offlabel" else "badver"
-    let tag := s!"w{b01 weak},{if row.isSome then kindTag r.kind else "nosuite"},{verTag ver},{cls},{sizeTag msgs}"
+    let mrow := supportedRow weak id
+    let mr := mrow.getD default
+    let valid := mrow.isSome && validVersion mr ver
+    let cls := if mrow.isNone then "unsupported" else if valid then "valid" else if versionKnown ver then "offlabel" else "badver"
+    let tag := s!"w{b01 weak},{if mrow.isSome then kindTag mr.kind else "nosuite"},{verTag ver},{cls},{sizeTag msgs}"
     -- the harness could not run the case (timeout, crashed child, no loopback socket): not an
     -- observation of the implementation, so no monitor verdict — reported as a broken tie
     if (c.output.get "out").isSome then .diff tag s!"harness: out={c.output.getD "out" ""} {c.output.getD "msg" ""}" else
     -- monitors (property C27)
-    if row.isNone && (implC != "nil" || implS != "nil") then
+    if mrow.isNone && (implC != "nil" || implS != "nil") then
       .propFail tag s!"unknown-suite-not-nil c={implC} s={implS}"
     else if valid && (implC != "conn" || implS != "conn") then
       .propFail tag s!"supported-suite-no-connection c={implC} s={implS}"
@@ -124,13 +136,13 @@ def forgeNil (c : Case) : Verdict :=
     let outs := ids.map fun id => (id, make tbl id ver isClient)
     let mConn := (outs.filter fun p => match p.2 with | .conn _ => true | _ => false).map (·.1)
     let mPanic := (outs.filter fun p => match p.2 with | .panic _ => true | _ => false).map (·.1)
-    let inTable := ids.filter fun id => (lookup tbl id).isSome
+    let inTable := ids.filter fun id => (supportedRow weak id).isSome
     let tag := s!"w{b01 weak},{verTag ver},{if isClient then "client" else "server"},{if ids.length ≥ 256 then "block" else "sample"},{if inTable.isEmpty then "nohit" else "hit"}"
     -- monitors
-    match (implConn ++ implPanic).find? fun id => (lookup tbl id).isNone with
+    match (implConn ++ implPanic).find? fun id => (supportedRow weak id).isNone with
     | some id => .propFail tag s!"unknown-suite-not-nil id={id}"
     | none =>
-      match ids.find? fun id => (match lookup tbl id with | some r => validVersion r ver | none => false) && !implConn.contains id with
+      match ids.find? fun id => (match supportedRow weak id with | some r => validVersion r ver | none => false) && !implConn.contains id with
       | some id => .propFail tag s!"supported-suite-no-connection id={id}"
       | none =>
         if implConn == mConn && implPanic == mPanic then .ok tag
